@@ -15,6 +15,11 @@ def run_one(m, check_tests=False):
         r = sh(["git", "-C", "/repo", "worktree", "add", "-q", "--detach", wt, "HEAD"])
         if r.returncode != 0:
             return "ERROR worktree: " + r.stderr
+        if m.get("base"):
+            # compound test: a behaviour-preserving refactoring from the benign corpus first, the breaking edit on top
+            r = sh(["git", "apply", os.path.join(V, "selftest", "benign", m["base"] + ".diff")], cwd=wt)
+            if r.returncode != 0:
+                return "ERROR base patch does not apply: " + r.stderr[-200:]
         p = os.path.join(wt, m["file"])
         src = open(p).read()
         if src.count(m["old"]) != 1:
